@@ -1077,7 +1077,9 @@ class OmniParser(PVLParser):
                         # print(f'parameter name: {last_token}')
                         self.parse_WSC_until(None, tokens)
                         value = self.parse_value(tokens)
-                        self.parse_statement_delimiter(tokens)
+                        if self.parse_statement_delimiter(tokens):
+                            # As in parse_assignment_statement().
+                            self._simple_value = (None, value)
                         module.append(str(last_token), value)
                     except StopIteration:
                         module.append(
